@@ -767,6 +767,11 @@ def always_raises(body: list[ast.stmt]) -> bool:
     return False
 
 
+def always_raises_seq(stmts: list[ast.stmt]) -> bool:
+    """like always_raises, and additionally accepts `if c: raise ...` followed by statements that always raise"""
+    return always_raises(stmts)
+
+
 def rejecting_guards(fn_node: ast.AST, is_subject) -> list[tuple[ast.If, list[ast.AST]]]:
     """`if <test>: ... raise` statements whose test involves the subject, each with the list of
     conjuncts that NARROW the rejection (operands of a top-level `and` that do not involve the
